@@ -12,6 +12,7 @@ function makeState() {
   state.RT = {
     fetch() { const r = state.cur; if (!r) return; r.fetches++; if (--r.fuel < 0) throw FUEL; },
     rec(rule) { const r = state.cur; if (!r) return; r.reds.push({ r: rule, f: r.fetches }); if (--r.fuel < 0) throw FUEL; },
+    tick() { const r = state.cur; if (!r) return; if (--r.fuel < 0) throw FUEL; },
     tokN(ch, p) { return (ch * 31 + p + 1) % MOD; },
     tokS(ch, p) { return String.fromCharCode(ch) + p; },
     hs(r, xs) { return '(' + r + ':' + xs.join(',') + ')'; },
